@@ -766,7 +766,17 @@ class JsonHistory(History):
 
         # Write empty history directly — flush() would skip empty buffer.
         if self.filename:
-            meta = {"cmds": [], "sessionid": str(self.sessionid)}
+            # Keep the other top-level metadata of the session file (``locked``,
+            # ``ts``, ...): without them the file of this live session looks
+            # unlocked and older than everything else to the garbage collector
+            # of any other session, which then deletes it first.
+            try:
+                with open(self.filename, newline="\n", encoding="utf-8") as f:
+                    meta = xlj.LazyJSON(f).load()
+            except (OSError, ValueError):
+                meta = {"locked": True, "ts": [time.time(), None]}
+            meta["cmds"] = []
+            meta["sessionid"] = str(self.sessionid)
             with open(self.filename, "w", newline="\n", encoding="utf-8") as f:
                 xlj.ljdump(meta, f, sort_keys=True)
 
